@@ -27,9 +27,10 @@ func collectDefaultNumbers() {
 	sort.Strings(baseTexts)
 }
 
+// are all STRINGS and map keys valid UTF-8 (bytes and fixed values may hold anything in every format)
 func allValidUtf8(v *Val) bool {
 	var ss []string
-	v.strings(&ss)
+	v.textStrings(&ss)
 	for _, s := range ss {
 		if !utf8.ValidString(s) {
 			return false
@@ -46,6 +47,8 @@ func main() {
 	switch mode {
 	case "c01":
 		runC01(cfg)
+	case "c03":
+		runC03(cfg)
 	case "c04":
 		runC04(cfg)
 	case "c06":
@@ -54,10 +57,16 @@ func main() {
 		runC07(cfg)
 	case "c09":
 		runC09(cfg)
+	case "c10":
+		runC10(cfg)
 	case "c11":
 		runC11(cfg)
+	case "c11p":
+		runC11P(cfg)
 	case "c13":
 		runC13(cfg)
+	case "c16":
+		runC16(cfg)
 	default:
 		fmt.Fprintln(os.Stderr, "unknown VERIF_MODE", mode)
 		os.Exit(2)
